@@ -213,7 +213,7 @@ func main() {
 		"chain:committee-compared", "chain:committee-compared:try_count=1", "chain:committee-compared:try_count=3", "chain:committee-compared:try_count=10",
 		"chain:insufficient-validators-as-predicted", "chain:ask=eligible+1-refused", "chain:ask=all-eligible", "chain:ask=1",
 		"chain:committee-with-bonded-but-inactive-validator-present", "chain:committee-with-active-but-unbonded-validator-present",
-		"chain:committee-with-equal-power-different-tokens", "chain:committee-with-total-weight-above-2^63", "chain:rolling-seed-updates-checked", "chain:rolling-seed-checked-after-an-abandoned-proposal-execution",
+		"chain:committee-with-equal-power-different-tokens", "chain:committee-with-total-weight-above-2^63", "chain:rolling-seed-updates-checked", "chain:rolling-seed-checked-after-an-abandoned-proposal-execution", "chain:sampling-try-count-0-refused",
 		"tss:direct-selection-compared", "tss:attempt-selection-compared", "tss:attempt>1-selection-compared",
 		"live:attempt-selection-compared", "live:attempt-created-in-tx", "live:retry-selection-compared", "live:retry-after-deactivations-in-same-end-block",
 		"live:retry-with-proper-subset-eligible", "live:attempt-created-in-end-block-by-other-module",
